@@ -159,7 +159,7 @@ Init == /\ mode \in Modes
         /\ n = 0 /\ last = Clean /\ hist = <<>>
 
 Live == n < MaxActions
-NextAll == Live /\ \E p \in Paths :
+NextAll == \E p \in Paths :                    \* (every action needs n < MaxActions)
              \/ \E dv \in VStep, lc \in 0..1, tc \in 0..2 : Write(p, dv, lc, tc)
              \/ Query(p) \/ XQuery(p) \/ Build(p)
 \* -simulate: one weighted random successor per state (rewrites with preserved / same-second time are the point)
@@ -170,8 +170,8 @@ NextSim == Live /\ LET p == RandomElement(Paths)
                       ELSE IF r <= 7 THEN Query(p)
                       ELSE IF r = 8 /\ WithX THEN XQuery(p)
                       ELSE Build(p)
-Next == IF Sim THEN NextSim ELSE NextAll
-Spec == Init /\ [][Next]_vars
+\* cfg files name NextAll (TLC then reports coverage per action) or NextSim directly
+Spec == Init /\ [][NextAll]_vars
 
 \* ---- properties ---------------------------------------------------------------
 Fresh == \A k \in Kinds : last.stale[k] = 0
